@@ -225,6 +225,7 @@ func vfC03(w *vfWorld) {
 		// cookie set
 		k := j
 		ownIntact := false
+		cookieEither := false
 		var pairs []string
 		ckDesc := ""
 		name := lj.Lg.CSRFName
@@ -249,6 +250,11 @@ func vfC03(w *vfWorld) {
 			c := vfB64URL[t.Choice("c03.cchar", 64)]
 			if v[p] != c && v[p] != '|' {
 				v = v[:p] + string(c) + v[p+1:]
+				// the last data character of the padded base64 signature carries unused bits: such a string decodes to
+				// the identical MAC, i.e. it IS the cookie that was issued
+				if p == len(strings.TrimRight(lj.Lg.CSRFValue, "="))-1 {
+					cookieEither = true
+				}
 			} else {
 				ownIntact = true
 			}
@@ -282,6 +288,9 @@ func vfC03(w *vfWorld) {
 		r := atk.Do(rep, &vfReq{Method: "GET", Target: target, NoJar: true, CookieHdr: &hdr})
 		cs.Attacks++
 		w.logf("c03", "attack %s + %s -> %d", stateDesc, ckDesc, r.Status)
+		if cookieEither {
+			continue
+		}
 		if established(r) {
 			cs.Accepted++
 			if !(stateIntact && ownIntact) {
